@@ -183,8 +183,16 @@ bool buffergroup::turn_iter()
 {
   if (!bufferctrl::haslive())
     return false;
+  WV_GHOST(wv_steps = 0;)
   do
+  WV_LOOP(__CPROVER_assigns(this->turn, wv_steps)
+          __CPROVER_loop_invariant(this->turn < this->size && wv_steps <= this->size && bufferctrl__live_num == WV_COUNT_LIVE(this) && bufferctrl__live_num >= 1)
+          __CPROVER_loop_invariant(WV_ALL_INV_BETWEEN(this, __CPROVER_loop_entry(this->turn), wv_steps))
+          __CPROVER_decreases(this->size - wv_steps))
+  {
     turn = (turn + 1) % size;
+    WV_GHOST(wv_steps++;)
+  }
   while (ctrl[turn].cmpstate(INV));
   return true;
 };
